@@ -629,6 +629,21 @@ func c03AuxFingerprint(args []string) int {
 	w := bufio.NewWriter(f)
 	defer w.Flush()
 	fw.StartWatchdog()
+	// first the rejected projects of c03Rejected, each process in another rotation of the list: what a process has
+	// rejected before must not show in the diagnostic of the next project (compared across the processes by the driver)
+	rot := 0
+	if len(args) > 2 {
+		rot, _ = strconv.Atoi(args[2])
+	}
+	rej := make([]string, len(c03Rejected))
+	for k := range c03Rejected {
+		i := (k + rot*5) % len(c03Rejected)
+		fw.TouchWatchdog()
+		rej[i] = fingerprint(run.Exec(run.Single([]byte(c03Rejected[i])), false))
+	}
+	for i, f := range rej {
+		fmt.Fprintf(w, "R%d %s\n", i, f)
+	}
 	for i := 0; i < c03CrossTotal(); i++ {
 		c := c03CrossCase(seed, i)
 		fmt.Fprintf(os.Stderr, "case %d\n", i)
@@ -704,7 +719,7 @@ func c03Post(d *fw.Driver) {
 	var outs [][]string
 	for p := 0; p < nproc; p++ {
 		out := filepath.Join(d.WorkDir, fmt.Sprintf("fp%d.txt", p))
-		cmd := exec.Command(d.Self, "aux", "c03fp", strconv.FormatUint(d.Seed, 10), out)
+		cmd := exec.Command(d.Self, "aux", "c03fp", strconv.FormatUint(d.Seed, 10), out, strconv.Itoa(p))
 		cmd.Env = append(os.Environ(), fmt.Sprintf("GOMAXPROCS=%d", []int{1, 4, 16, 2, 8, 3, 16, 1}[p%8]))
 		if b, err := cmd.CombinedOutput(); err != nil {
 			if ee, ok := err.(*exec.ExitError); ok && ee.ExitCode() == fw.ExitHang {
@@ -733,11 +748,27 @@ func c03Post(d *fw.Driver) {
 	for i := 0; i < len(outs[0]); i++ {
 		d.Count("driver_evaluations", 1)
 		d.Count("cross_process_cases", 1)
+		if strings.HasPrefix(outs[0][i], "R") {
+			// a rejected project of the rotated list: the processes met it after different predecessors
+			for p := 1; p < nproc; p++ {
+				if i >= len(outs[p]) || outs[p][i] != outs[0][i] {
+					k := 0
+					fmt.Sscanf(outs[0][i], "R%d", &k)
+					c := &fw.Case{Check: "C03", Family: "rejected-after-rejected", Index: k * len(c03Rejected), Docs: []run.Doc{run.Single([]byte(c03Rejected[k%len(c03Rejected)]))}}
+					d.AddViolation("depends-on-rejected-predecessor:cross-process", fmt.Sprintf("fresh processes that reject the same projects in different orders disagree on one of them (process 0: %s, process %d: %s); project %q",
+						outs[0][i], p, safeIdx(outs[p], i), c03Rejected[k%len(c03Rejected)]), c)
+					break
+				}
+			}
+			continue
+		}
+		ci := i
+		fmt.Sscanf(outs[0][i], "%d", &ci) // the line carries the index of its case
 		for p := 1; p < nproc; p++ {
 			if i >= len(outs[p]) || outs[p][i] != outs[0][i] {
-				c := c03CrossCase(d.Seed, i)
+				c := c03CrossCase(d.Seed, ci)
 				c.Check, c.Family = "C03", "multifault"
-				if i < len(corpus.All()) {
+				if ci < len(corpus.All()) {
 					c.Family = "corpus"
 				}
 				a := run.Exec(c.Docs[0], false)
@@ -749,7 +780,7 @@ func c03Post(d *fw.Driver) {
 					}
 				}
 				d.AddViolation(sig, fmt.Sprintf("fresh processes disagree on case %d (process 0: %s, process %d: %s); one result: %s; input %s",
-					i, outs[0][i], p, safeIdx(outs[p], i), describe(a), fw.Short(c.Docs[0].Files[c.Docs[0].Root], 400)), c)
+					ci, outs[0][i], p, safeIdx(outs[p], i), describe(a), fw.Short(c.Docs[0].Files[c.Docs[0].Root], 400)), c)
 				break
 			}
 		}
